@@ -547,6 +547,13 @@ func Main(t *testing.T, spec Spec) {
 			}
 			if target == nil {
 				target = v
+				// the first failing run as generated, kept beside the minimised trace: if the minimised one does not
+				// reproduce in a fresh process (shrinking went on inside a process whose earlier runs may have left
+				// state behind, or met an unowned scheduling choice) the driver falls back to this one
+				tr.Violation = v
+				if fb, err := json.MarshalIndent(tr, "", " "); err == nil {
+					_ = os.WriteFile(filepath.Join(out, fmt.Sprintf("first-fail-w%d.json", worker)), fb, 0o644)
+				}
 			}
 			if v.Class != target.Class {
 				return // a different failure reached while shrinking: not the one being minimised
